@@ -683,7 +683,7 @@ class _InlineNewHelpers(_InlineMethods):
     """expand, in every function of a module, the calls of same-module functions and same-class methods that are not in the table of known
     functions (extract-function refactorings)"""
 
-    def __init__(self, tree, known, foreign=None, modname='', is_pkg=False, known_digests=None, known_params=None, known_features=None):
+    def __init__(self, tree, known, foreign=None, modname='', is_pkg=False, known_digests=None, known_params=None, known_features=None, relpath=None):
         _InlineMethods.__init__(self, tree)
         self.known = known
         # hosts that HAD a nested function which is gone now: only there a new helper can be a lifted closure
@@ -699,6 +699,7 @@ class _InlineNewHelpers(_InlineMethods):
                     self.lost_params.setdefault(id(now[hostq]), []).append((known_params or {}).get(q))
                     self.lost_features.setdefault(id(now[hostq]), []).append(set((known_features or {}).get(q) or ()))
         self.hcount = [0]
+        self.relpath_ = relpath
         self.foreign = foreign or {}
         self.modname = modname
         self.is_pkg = is_pkg
@@ -768,6 +769,14 @@ class _InlineNewHelpers(_InlineMethods):
             for _ in range(3):
                 _scalar_replacement(fn, records)
                 _propagate_temporaries(fn)
+            # `if helper(..) and B:` became `t = <expanded helper>; if t and B:` -- the two conditions are tested one after the other
+            for x in ast.walk(fn):
+                if isinstance(x, ast.If) and not x.orelse and isinstance(x.test, ast.BoolOp) and isinstance(x.test.op, ast.And) and \
+                        isinstance(x.test.values[0], ast.Name) and x.test.values[0].id.startswith('__hoisted'):
+                    rest = x.test.values[1:]
+                    inner = ast.copy_location(ast.If(test=rest[0] if len(rest) == 1 else ast.copy_location(ast.BoolOp(op=ast.And(), values=rest), x.test), body=x.body, orelse=[]), x)
+                    x.test = x.test.values[0]
+                    x.body = [inner]
         return True
 
     def _restore_closures(self, classes, new_methods):
@@ -962,6 +971,14 @@ class _InlineNewHelpers(_InlineMethods):
         mcands = {(c, k): v for c, ms in new_methods.items() for k, v in ms.items() if k.startswith('_') and id(v) in self.expanded}
         if not cands and not mcands:
             return
+        # a new private module-level table of literals / names that nothing reads any more (its loop was unrolled) goes first
+        kc = _KNOWN_EXTRA.get('constants', {}).get(self.relpath_) if getattr(self, 'relpath_', None) else None
+        if kc is not None:
+            loaded = {x.id for x in ast.walk(self.tree) if isinstance(x, ast.Name) and isinstance(x.ctx, ast.Load)} | \
+                {x.value for x in ast.walk(self.tree) if isinstance(x, ast.Constant) and isinstance(x.value, str)}
+            self.tree.body = [st for st in self.tree.body if not (
+                isinstance(st, ast.Assign) and len(st.targets) == 1 and isinstance(st.targets[0], ast.Name) and st.targets[0].id.startswith('_') and not st.targets[0].id.startswith('__') and
+                st.targets[0].id not in kc and st.targets[0].id not in loaded and isinstance(st.value, (ast.Tuple, ast.List, ast.Dict, ast.Set)) and _is_literal_table(st.value))]
         mentioned = set()
         for x in ast.walk(self.tree):
             if isinstance(x, ast.Name):
@@ -1815,6 +1832,143 @@ def _forward_named_conditions(fn):
                     ast.fix_missing_locations(b)
 
 
+def _loop_over_generator(fn):
+    """`for x in (E for i in IT): BODY` -- the generator written in the loop header or kept in a local that is made just before the loop and used
+    nowhere else -- is `for i in IT: x = E; BODY`: a generator expression is evaluated in step with the loop that consumes it"""
+    names = {}
+    for y in ast.walk(fn):
+        if isinstance(y, ast.Name):
+            names[y.id] = names.get(y.id, 0) + 1
+        elif isinstance(y, ast.arg):
+            names[y.arg] = names.get(y.arg, 0) + 1
+    for x in ast.walk(fn):
+        for fld in ('body', 'orelse', 'finalbody'):
+            lst = getattr(x, fld, None)
+            if not isinstance(lst, list):
+                continue
+            for b, st in enumerate(lst):
+                if not isinstance(st, ast.For) or st.orelse:
+                    continue
+                gen, a = None, None
+                if isinstance(st.iter, ast.GeneratorExp):
+                    gen = st.iter
+                elif isinstance(st.iter, ast.Name) and names.get(st.iter.id) == 2:
+                    for a_ in range(b - 1, -1, -1):
+                        p_ = lst[a_]
+                        if isinstance(p_, ast.Assign) and len(p_.targets) == 1 and isinstance(p_.targets[0], ast.Name) and p_.targets[0].id == st.iter.id and isinstance(p_.value, ast.GeneratorExp):
+                            gen, a = p_.value, a_
+                            break
+                        if not (isinstance(p_, ast.Assign) and all(isinstance(t, ast.Name) for t in p_.targets) and isinstance(p_.value, ast.Constant)):
+                            break
+                if gen is None or len(gen.generators) != 1 or gen.generators[0].ifs or gen.generators[0].is_async:
+                    continue
+                comp = gen.generators[0]
+                inner = {y.id for y in ast.walk(comp.target) if isinstance(y, ast.Name)}
+                used_in_gen = {}
+                for y in ast.walk(gen):
+                    if isinstance(y, ast.Name):
+                        used_in_gen[y.id] = used_in_gen.get(y.id, 0) + 1
+                # the generator's own variables become variables of the function: they must be new to it
+                if any(names.get(v, 0) != used_in_gen.get(v, 0) for v in inner):
+                    continue
+                if a is not None:
+                    between = {t.id for p_ in lst[a + 1:b] for t in p_.targets}
+                    if between & set(used_in_gen):
+                        continue
+                bind = ast.copy_location(ast.Assign(targets=[st.target], value=gen.elt, type_comment=None), st)
+                st.target = comp.target
+                st.iter = comp.iter
+                st.body = [bind] + st.body
+                ast.fix_missing_locations(st)
+                if a is not None:
+                    del lst[a]
+                return _loop_over_generator(fn)
+
+
+def _unroll_constant_loops(fn):
+    """`for v in (c1, c2, c3): BODY` over a short literal tuple or list of constants / names (or of equally long tuples of them, with a tuple
+    target) is BODY three times with the element written in place of the loop variable; only when BODY neither breaks out of nor continues
+    this loop and does not rebind the variable"""
+    import copy
+
+    def simple(e):
+        return isinstance(e, (ast.Constant, ast.Name)) or (isinstance(e, ast.Attribute) and simple(e.value)) or \
+            (isinstance(e, ast.Tuple) and all(isinstance(y, (ast.Constant, ast.Name)) for y in e.elts))
+
+    def leaves_loop(stmts):
+        for st in stmts:
+            if isinstance(st, (ast.Break, ast.Continue)):
+                return True
+            if isinstance(st, (ast.For, ast.While, ast.FunctionDef, ast.AsyncFunctionDef, ast.ClassDef)):
+                if isinstance(st, (ast.For, ast.While)) and leaves_loop(st.orelse):
+                    return True
+                continue
+            for fld in ('body', 'orelse', 'finalbody'):
+                if leaves_loop(getattr(st, fld, []) or []):
+                    return True
+            for h in getattr(st, 'handlers', []):
+                if leaves_loop(h.body):
+                    return True
+        return False
+    for x in ast.walk(fn):
+        for fld in ('body', 'orelse', 'finalbody'):
+            lst = getattr(x, fld, None)
+            if not isinstance(lst, list):
+                continue
+            for b, st in enumerate(lst):
+                if not isinstance(st, ast.For) or st.orelse:
+                    continue
+                table = st.iter
+                if isinstance(table, ast.Name):
+                    # a table that is bound once in this function (a hoisted module-level table is bound at the top by the loader)
+                    defs = [y for y in ast.walk(fn) if isinstance(y, ast.Assign) and any(isinstance(t, ast.Name) and t.id == table.id for t in y.targets)]
+                    n_stores = sum(1 for y in ast.walk(fn) if isinstance(y, ast.Name) and y.id == table.id and isinstance(y.ctx, (ast.Store, ast.Del)))
+                    if len(defs) == 1 and n_stores == 1 and len(defs[0].targets) == 1 and table.id not in {a.arg for a in fn.args.posonlyargs + fn.args.args + fn.args.kwonlyargs}:
+                        table = defs[0].value
+                if not isinstance(table, (ast.Tuple, ast.List)) or not (1 <= len(table.elts) <= 6):
+                    continue
+                elts = table.elts
+                if not all(simple(e) for e in elts) or leaves_loop(st.body):
+                    continue
+                if any(isinstance(y, (ast.For, ast.While, ast.ListComp, ast.GeneratorExp, ast.SetComp, ast.DictComp)) for s_ in st.body for y in ast.walk(s_)):
+                    continue            # an outer loop around another loop is an order of visits, not a table of cases
+                if isinstance(st.target, ast.Name):
+                    tnames = [st.target.id]
+                    rows = [[e] for e in elts]
+                elif isinstance(st.target, ast.Tuple) and all(isinstance(t, ast.Name) for t in st.target.elts) and all(isinstance(e, ast.Tuple) and len(e.elts) == len(st.target.elts) for e in elts):
+                    tnames = [t.id for t in st.target.elts]
+                    rows = [list(e.elts) for e in elts]
+                else:
+                    continue
+                stored = {y.id for s_ in st.body for y in ast.walk(s_) if isinstance(y, ast.Name) and isinstance(y.ctx, (ast.Store, ast.Del))}
+                nested_use = any(isinstance(y, (ast.Lambda, ast.FunctionDef)) for s_ in st.body for y in ast.walk(s_))
+                elt_names = {y.id for e in elts for y in ast.walk(e) if isinstance(y, ast.Name)}
+                if stored & (set(tnames) | elt_names) or nested_use:
+                    continue
+                out = []
+                inside = {id(y) for s_ in st.body for y in ast.walk(s_)}
+                used_outside = {y.id for y in ast.walk(fn) if isinstance(y, ast.Name) and isinstance(y.ctx, ast.Load) and y.id in tnames and id(y) not in inside}
+                for row in rows:
+                    m = dict(zip(tnames, row))
+                    for t, v in m.items():
+                        if t not in used_outside:
+                            continue        # the loop variable is read nowhere but in the body, where its value is written out
+                        out.append(ast.copy_location(ast.Assign(targets=[ast.Name(id=t, ctx=ast.Store())], value=copy.deepcopy(v), type_comment=None), st))
+                    for s_ in st.body:
+                        out.append(_Subst(m).visit(copy.deepcopy(s_)))
+                for o in out:
+                    ast.fix_missing_locations(o)
+                lst[b:b + 1] = out or [ast.copy_location(ast.Pass(), st)]
+                if isinstance(st.iter, ast.Name) and table is not st.iter and not any(isinstance(y, ast.Name) and y.id == st.iter.id and isinstance(y.ctx, ast.Load) for y in ast.walk(fn)):
+                    # the table's binding in this function has no reader left
+                    for z in ast.walk(fn):
+                        for fld2 in ('body', 'orelse', 'finalbody'):
+                            l2 = getattr(z, fld2, None)
+                            if isinstance(l2, list) and defs[0] in l2:
+                                l2[l2.index(defs[0])] = ast.copy_location(ast.Pass(), defs[0])
+                return _unroll_constant_loops(fn)
+
+
 def module_constants(tree):
     """names bound at module level by a plain assignment"""
     return sorted({t.id for st in _toplevel(tree.body) if isinstance(st, ast.Assign) for t in st.targets if isinstance(t, ast.Name)})
@@ -2232,16 +2386,20 @@ class Module:
         kd = _KNOWN_EXTRA.get('digests', {}).get(relpath)
         if kd is not None:
             # functions that are not as they were when the tree was read: a field that is staged in a local gets its value directly
-            for q, node in function_table(raw).items():
-                if q in kd and kd[q] != fn_digest(node):
-                    if '.' in q:
-                        _unstage_fields(node)
+            changed_fns = [(q, node) for q, node in function_table(raw).items() if q in kd and kd[q] != fn_digest(node)]
+        else:
+            changed_fns = []
         kc = _KNOWN_EXTRA.get('constants', {}).get(relpath)
         if kc is not None:
             _localise_new_constants(raw, set(kc))
+        for q, node in changed_fns:
+            if '.' in q:
+                _unstage_fields(node)
+            _loop_over_generator(node)
+            _unroll_constant_loops(node)
         self.tree = ast.fix_missing_locations(_Desugar().visit(raw))
         known = known_functions().get(relpath)
-        if known is not None and _InlineNewHelpers(self.tree, known, foreign=foreign, modname=name, is_pkg=relpath.endswith('__init__.py'), known_digests=kd, known_params=_KNOWN_EXTRA.get('params', {}).get(relpath), known_features=_KNOWN_EXTRA.get('features', {}).get(relpath)).run():
+        if known is not None and _InlineNewHelpers(self.tree, known, foreign=foreign, modname=name, is_pkg=relpath.endswith('__init__.py'), known_digests=kd, known_params=_KNOWN_EXTRA.get('params', {}).get(relpath), known_features=_KNOWN_EXTRA.get('features', {}).get(relpath), relpath=relpath).run():
             ast.fix_missing_locations(self.tree)
         if any(isinstance(n, ast.ClassDef) and any(n.name == c for (c, _m) in INLINE_HOSTS) for n in self.tree.body):
             _InlineMethods(self.tree).run()
@@ -2476,9 +2634,71 @@ class Program:
     def func(self, qualname):
         if qualname not in self.funcs:
             if qualname in getattr(self, 'aliases', {}):
-                return self.aliases[qualname]
+                f = self.aliases[qualname]
+                self.accessed.append(f)
+                return f
             raise AnalysisError('anchor function vanished: %s' % qualname)
+        self.accessed.append(self.funcs[qualname])
         return self.funcs[qualname]
+
+    accessed = []
+
+    def unseen_machinery(self, f):
+        """what a function of the analysed program leans on that did not exist when the tree was read and that the loader could not fold back into
+        it: new functions and classes of its module (or imported new ones), new methods, new class-level tables of them.  A rule that reads such
+        a function sees only part of what it does."""
+        mod = f.module
+        cache = getattr(mod, '_new_names', None)
+        if cache is None:
+            known = known_functions().get(mod.relpath)
+            names, attrs = set(), set()
+            if known is not None:
+                known_attr_words = {k.split('.')[-1] for k in known}
+                for st in _toplevel(mod.tree.body):
+                    if isinstance(st, (ast.FunctionDef, ast.AsyncFunctionDef)) and st.name not in known:
+                        names.add(st.name)
+                    elif isinstance(st, ast.ClassDef):
+                        if st.name + '.' not in known:
+                            names.add(st.name)
+                            continue
+                        for m in st.body:
+                            if isinstance(m, (ast.FunctionDef, ast.AsyncFunctionDef)) and (st.name + '.' + m.name) not in known and m.name not in known_attr_words:
+                                attrs.add(m.name)
+                for local, tgt in mod.imports.items():
+                    if tgt[0] == 'sym' and tgt[1] in self.modules:
+                        other = self.modules[tgt[1]]
+                        ok_ = known_functions().get(other.relpath)
+                        if ok_ is not None and tgt[2] not in ok_ and (tgt[2] + '.') not in ok_ and (tgt[2] in other.funcs or tgt[2] in other.classes):
+                            names.add(local)
+                # tables of new callables: module level and class level
+                kc = set(_KNOWN_EXTRA.get('constants', {}).get(mod.relpath) or ())
+                changed = True
+                while changed:
+                    changed = False
+                    for st in _toplevel(mod.tree.body):
+                        if isinstance(st, ast.Assign) and all(isinstance(t, ast.Name) for t in st.targets) and not any(t.id in kc or t.id in names for t in st.targets):
+                            if any((isinstance(y, ast.Name) and y.id in names) or (isinstance(y, ast.Attribute) and y.attr in attrs) or isinstance(y, ast.Lambda) for y in ast.walk(st.value)):
+                                names.update(t.id for t in st.targets)
+                                changed = True
+                        elif isinstance(st, ast.ClassDef) and st.name + '.' in known:
+                            for m in st.body:
+                                if isinstance(m, ast.Assign) and all(isinstance(t, ast.Name) for t in m.targets) and not any(t.id in attrs or t.id in known_attr_words for t in m.targets):
+                                    if any((isinstance(y, ast.Name) and (y.id in names or y.id in attrs)) or (isinstance(y, ast.Attribute) and y.attr in attrs) or
+                                           (isinstance(y, ast.Constant) and y.value in attrs) or isinstance(y, ast.Lambda) for y in ast.walk(m.value)):
+                                        attrs.update(t.id for t in m.targets)
+                                        changed = True
+            cache = mod._new_names = (names, attrs)
+        names, attrs = cache
+        if not names and not attrs:
+            return []
+        out = set()
+        own = {x.id for x in ast.walk(f.node) if isinstance(x, ast.Name) and isinstance(x.ctx, ast.Store)} | {a.arg for a in f.node.args.posonlyargs + f.node.args.args + f.node.args.kwonlyargs}
+        for x in ast.walk(f.node):
+            if isinstance(x, ast.Name) and isinstance(x.ctx, ast.Load) and x.id in names and x.id not in own:
+                out.add(x.id)
+            elif isinstance(x, ast.Attribute) and x.attr in attrs:
+                out.add('.' + x.attr)
+        return sorted(out)
 
     def cls(self, qualname):
         if qualname not in self.classes:
